@@ -117,3 +117,16 @@ CHECKS["C19"] = {
          "are pinned by golden files of the unedited suite (see known-findings.txt).",
  "technique": "machine-checked proof in Coq + model/implementation correspondence check",
 }
+
+CHECKS["C08"] = {
+ "text": "Coq theorems relating a line-by-line model of the Go validator (vimpl, gate_impl) to JSON Schema 2020-12 semantics written "
+         "independently (vspec) for the supported vocabulary: agreement of verdicts for all compiled schemas, values and fuel outside "
+         "three decidable known classes (const:null, uniqueItems, number text), reject => diagnostic, accept => none, gate correctness; "
+         "string-length unit and the silent-rejection repair are read from the source by srcfacts; the real gate (EvalEnvironment with a "
+         "stub provider whose input schema is the generated schema) is compared on generated (schema, value) pairs; python jsonschema "
+         "cross-validates vspec in the thorough tier only",
+ "note": "Trusted: Coq kernel, srcfacts, correspondence harness, extraction. Restrictions named in the theorems: integral canonical "
+         "numerals below 2^64, well-formed UTF-8, single type names other than integer, $defs at the root, multipleOf > 0; pattern "
+         "matching is a shared parameter (Go regexp is exercised, not modelled).",
+ "technique": "machine-checked proof in Coq + model/implementation correspondence check",
+}
